@@ -84,7 +84,10 @@ func c20CtrlBody(st *c20Ctrl, startAt int64, ap [2]string, epochs int, attestDur
 	}
 	accts := &accountsTable{byIndex: byIndex}
 	ev := &eventsProvider{}
+	// fast track on or off (on is vouch's default)
+	w.fastTrack = mc.Choose(2) == 1
 	ctrl, err := standardcontroller.New(ctx,
+		standardcontroller.WithFastTrackAttestations(w.fastTrack), standardcontroller.WithFastTrackSyncCommittees(w.fastTrack), standardcontroller.WithFastTrackGrace(c03Grace),
 		standardcontroller.WithLogLevel(zerolog.Disabled), standardcontroller.WithMonitor(nullmetrics.New()),
 		standardcontroller.WithSpecProvider(&specProvider{m: baseSpec(c03SlotDur, c03SPE)}), standardcontroller.WithChainTimeService(ct),
 		standardcontroller.WithProposerDutiesProvider(w), standardcontroller.WithAttesterDutiesProvider(w),
@@ -834,7 +837,7 @@ func init() {
 	hx.Register(&hx.Prop{
 		ID:    "C20",
 		Title: "Vouch's memory and goroutines stay bounded, and shutdown accounting is exact",
-		Rule: "ctrl: the real controller + scheduler run for 4 (thorough 6) epochs from 2 start instants with 6 attester duty-table pairs (dense / sparse, reorg that drops or moves duties) and an attester that returns at once, plus 5 pairs with an attester that takes 14 s (still at work at the next slot's head event), x position (any of 8 slots, 1 s or 6 s into it), kind of the reorg event, a head event every slot (or every slot but the first of each epoch), the default schedule; thorough: plus two-epoch runs for all reorg pairs under every schedule with one deviation while the reorg event is handled; at +2 s and at the end of every slot: job names, pending-attestation marks (exactly the slots with an attestation job listed or attestations in flight), subscription-information epochs inside a fixed window; " +
+		Rule: "ctrl: the real controller (fast track off / on) + scheduler run for 4 (thorough 6) epochs from 2 start instants with 6 attester duty-table pairs (dense / sparse, reorg that drops or moves duties) and an attester that returns at once, plus 5 pairs with an attester that takes 14 s (still at work at the next slot's head event), x position (any of 8 slots, 1 s or 6 s into it), kind of the reorg event, a head event every slot (or every slot but the first of each epoch), the default schedule; thorough: plus two-epoch runs for all reorg pairs under every schedule with one deviation while the reorg event is handled; at +2 s and at the end of every slot: job names, pending-attestation marks (exactly the slots with an attestation job listed or attestations in flight), subscription-information epochs inside a fixed window; " +
 			"attested: the real attester over every 6-epoch (thorough 8) pattern of {attests, data fetch fails, no duty}; sync: the real sync messenger + aggregator over every 8-slot (thorough 12) pattern of {selected as aggregator, not selected, beacon node gives no head root}; a slot that records a root leaves no root outside the window and at most 4 are ever retained; " +
 			"leak: each `first` / best / majority strategy with three nodes x {answer at 0 s / 2 s, never, late} x {valid, error}, unblinding with three relays, the deadline auction with three relays; after all timeouts no goroutine started by vouch may be blocked; deviation-bounded schedules; " +
 			"ctrl-due-job: the controller's scheduling of an epoch run six seconds into a slot that has a duty (the job is due at once), under every schedule with one preemption (thorough two) at that instant; non-trivial = a reorg happened / pending marks were observed / any attested, sync or leak case",
